@@ -41,9 +41,16 @@ struct ACtx {
 	bool mem_error_seen = false;
 	bool violated = false;
 
+	// A failing pthread_create (thorough tier) is one more legitimate source of
+	// LZMA_MEM_ERROR. Runs with it are judged on memory safety and allocator
+	// balance only: which call reports what is not predictable from the
+	// allocation count any more.
+	bool lenient = false;
+
 	void viol(const std::string &cls, const std::string &msg)
 	{
 		if (violated) return;
+		if (lenient && cls != "leak" && cls != "alloc-misuse" && cls != "caller-object-changed" && cls != "out-param") { v->count("runs.lenient_judgement_skipped"); return; }
 		violated = true;
 		v->fail(cls, P + "/" + cls, msg + " [flow " + flow + fmt(", failing allocation #%u, %llu injected failures]", al.fail_nth, (unsigned long long)al.failures));
 	}
@@ -726,7 +733,7 @@ static void c10_exec(const Plan &plan, Verdict &v)
 	v.count("runs.total");
 
 	if (mode == 2) {
-		ACtx c; c.v = &v; c.flow = "history"; c.threaded = true;
+		ACtx c; c.v = &v; c.flow = "history"; c.threaded = true; c.lenient = create_fault;
 		set_faults(c.al, plan);
 		lzma_stream s = LZMA_STREAM_INIT;
 		s.allocator = &c.al.a;
@@ -743,7 +750,7 @@ static void c10_exec(const Plan &plan, Verdict &v)
 			FlowOut fo;
 			if (op.has("fail_rel")) {
 				// count B's allocations on a fresh handle (fault-free), then fail the k-th counted from its init
-				ACtx cnt; Verdict vc; cnt.v = &vc; cnt.flow = c.flow; cnt.threaded = true;
+				ACtx cnt; Verdict vc; cnt.v = &vc; cnt.flow = c.flow; cnt.threaded = true; cnt.lenient = true;
 				FlowData dc; make_flow((int)op.get("flow") % F_STREAM_FLOW_COUNT, dc, variant);
 				if (d->abandon) { dc.input.resize(d->input.size()); dc.full_flush_at.clear(); dc.abandon = true; }
 				lzma_stream sc = LZMA_STREAM_INIT; sc.allocator = &cnt.al.a;
@@ -779,10 +786,10 @@ static void c10_exec(const Plan &plan, Verdict &v)
 	}
 
 	int flow = (int)plan.p("flow", 0) % F_COUNT;
-	ACtx c; c.v = &v; c.flow = flow_names[flow];
+	ACtx c; c.v = &v; c.flow = flow_names[flow]; c.lenient = create_fault;
 	if (flow >= F_STREAM_FLOW_COUNT) {
 		// baseline for the allocation count
-		ACtx base; Verdict vb; base.v = &vb; base.flow = c.flow;
+		ACtx base; Verdict vb; base.v = &vb; base.flow = c.flow; base.lenient = create_fault;
 		run_custom(base, flow, variant);
 		if (!vb.ok) { v.fail("baseline-" + vb.cls, "C10/baseline-" + vb.cls, "fault-free run: " + vb.msg); return; }
 		if (base.al.cur != 0) { v.fail("leak", "C10/leak", "fault-free custom flow leaked [" + c.flow + "]"); base.al.purge(); return; }
@@ -806,7 +813,7 @@ static void c10_exec(const Plan &plan, Verdict &v)
 	FlowOut base_out;
 	uint32_t N;
 	{
-		ACtx base; Verdict vb; base.v = &vb; base.flow = c.flow; base.threaded = d0.threaded;
+		ACtx base; Verdict vb; base.v = &vb; base.flow = c.flow; base.threaded = d0.threaded; base.lenient = create_fault;
 		lzma_stream s = LZMA_STREAM_INIT; s.allocator = &base.al.a;
 		run_stream_flow(base, d0, &s, base_out);
 		if (d0.cleanup) d0.cleanup(&base.al.a);
